@@ -105,6 +105,16 @@ def run(ctx):
             }
             for k, rx in want.items():
                 ctx.ob("R3", "child." + k, bool(re.match(rx, fields.get(k, ""))), c.loc(0), "child Vm.%s = %s" % (k, fields.get(k, "<missing>")[:160]), c)
+            # what the child clones must be the parent's *live* state at the fork (the fields of the inputs after the breadth
+            # word was popped), not a snapshot taken earlier: resolve each captured variable to the operand the parent passes
+            from .. import access as A
+            env = A.closure_env(prog, f, c, transparent=False) or []
+            names = getattr(c, "upvar_names", None) or []
+            got = {re.sub(r"^_ref__", "", n): A.norm(M.render(t_)) for n, t_ in zip(names, env)}
+            for k in ("stack", "pc", "parent_memory", "repeat", "cache"):
+                src = [v for n, v in got.items() if re.match(r"^(\^1|\^1\.0)\.%s$" % k, v)]
+                ctx.ob("R3", "child.%s:taken-from-the-parent's-live-state" % k, len(src) == 1, c.loc(0),
+                       "captures resolve to %s; exactly one must be the parent's own `%s` (inputs.%s)" % (sorted(set(got.values()))[:12], k, k), c)
         pushes = [(bb, t) for bb, t in c.calls() if M.callee_of(t) == "essential_vm::stack::Stack::push"]
         ok = len(pushes) == 1 and [M.render(pvc.of_operand(a)) for a in pushes[0][1]["args"]] == ["<essential_vm::stack::Stack as std::clone::Clone>::clone(<env>._ref__stack)", "compute_index"]
         ctx.ob("R3", "child-stack=parent-clone+index", ok, c.loc(pushes[0][0]) if pushes else c.loc(0), "pushes %s" % [[M.render(pvc.of_operand(a)) for a in t["args"]] for _, t in pushes], c)
